@@ -1,7 +1,7 @@
 //! Kani contract harnesses for agerasev/flatty.  This crate contains NO copy of flatty code: every harness
 //! calls the public API of the crates built from /repo's working tree (real proc-macro, real stavec).
 //! Harness shape: assume(precondition); call the real function; assert(postcondition vs. reference).
-#![allow(dead_code, unused_imports, clippy::all)]
+#![allow(dead_code, unused_imports, unused_variables, unused_mut, clippy::all)]
 #![cfg_attr(kani, feature(layout_for_ptr))]
 
 pub mod reference;
@@ -13,3 +13,11 @@ mod c16_portable;
 mod c01_validate;
 #[cfg(kani)]
 mod c04_layout;
+#[cfg(kani)]
+mod c03_emplace;
+#[cfg(kani)]
+mod c05_size;
+#[cfg(kani)]
+mod c11_vecops;
+#[cfg(kani)]
+mod c12_flex;
